@@ -25,7 +25,7 @@ macro_rules! hz_harness {
     };
 }
 
-//@ harness name=hz_cipher_round prop=C17,C03 tier=quick bits=257 stub=1 variants=aes:ni+hazmat est=50 desc="hazmat::cipher_round(block, key) == MixColumns(ShiftRows(SubBytes(block))) ^ key for all 2^128 blocks x 2^128 keys, on either dispatch arm (CPUID symbolic: AES-NI model or fixslice64 software)"
+//@ harness name=hz_cipher_round prop=C17,C03 tier=quick bits=257 stub=1 variants=aes:ni+hazmat est=60 desc="hazmat::cipher_round(block, key) == MixColumns(ShiftRows(SubBytes(block))) ^ key for all 2^128 blocks x 2^128 keys, on either dispatch arm (CPUID symbolic: AES-NI model or fixslice64 software)"
 hz_harness!(hz_cipher_round, 33, 40, |inp| {
     ni_model::set_cpu(inp[32] & 1 == 1);
     let blk: [u8; 16] = take(inp, 0);
@@ -35,7 +35,7 @@ hz_harness!(hz_cipher_round, 33, 40, |inp| {
     Some(b.0 == ra::xor(&ra::round_core(&blk), &key))
 });
 
-//@ harness name=hz_equiv_inv_cipher_round prop=C17,C03 tier=quick bits=257 stub=1 variants=aes:ni+hazmat est=245 desc="hazmat::equiv_inv_cipher_round(block, key) == InvMixColumns(InvShiftRows(InvSubBytes(block))) ^ key, all blocks and keys, either dispatch arm"
+//@ harness name=hz_equiv_inv_cipher_round prop=C17,C03 tier=quick bits=257 stub=1 variants=aes:ni+hazmat est=275 desc="hazmat::equiv_inv_cipher_round(block, key) == InvMixColumns(InvShiftRows(InvSubBytes(block))) ^ key, all blocks and keys, either dispatch arm"
 hz_harness!(hz_equiv_inv_cipher_round, 33, 40, |inp| {
     ni_model::set_cpu(inp[32] & 1 == 1);
     let blk: [u8; 16] = take(inp, 0);
@@ -71,7 +71,7 @@ verif_harness! {
         Some(b.0 == ni_model::o_imc(&ni_model::o_imc(&ni_model::o_imc(&blk))))
     }
 }
-//@ harness name=fips_imc3_is_mc prop=C17 tier=quick bits=300 variants=aes:ni+hazmat est=70 desc="oracle lemma: InvMixColumns applied three times equals MixColumns on every state: (a) both are additive -- I(x^y) == I(x)^I(y), M(x^y) == M(x)^M(y) for all 2^128 x 2^128 pairs (I^3 is then additive as a composition) -- and (b) I(I(I(e))) == M(e) for every state e with a single non-zero byte (position and value symbolic); every state is the XOR of its single-byte components"
+//@ harness name=fips_imc3_is_mc prop=C17 tier=quick bits=300 variants=aes:ni+hazmat est=75 desc="oracle lemma: InvMixColumns applied three times equals MixColumns on every state: (a) both are additive -- I(x^y) == I(x)^I(y), M(x^y) == M(x)^M(y) for all 2^128 x 2^128 pairs (I^3 is then additive as a composition) -- and (b) I(I(I(e))) == M(e) for every state e with a single non-zero byte (position and value symbolic); every state is the XOR of its single-byte components"
 verif_harness! {
     name: fips_imc3_is_mc,
     bytes: 34,
@@ -98,7 +98,7 @@ hz_harness!(hz_inv_mix_columns, 16, 40, |inp| {
     Some(b.0 == ra::inv_mix_columns(&blk))
 });
 
-//@ harness name=hz_cipher_round_par_ni prop=C17,C04 tier=quick bits=2048 stub=1 variants=aes:ni+hazmat est=180 need=10 desc="hazmat::cipher_round_par on 8 arbitrary blocks with 8 arbitrary round keys == eight independent cipher_round calls with the respective keys (intrinsics arm)"
+//@ harness name=hz_cipher_round_par_ni prop=C17,C04 tier=quick bits=2048 stub=1 variants=aes:ni+hazmat est=270 need=10 desc="hazmat::cipher_round_par on 8 arbitrary blocks with 8 arbitrary round keys == eight independent cipher_round calls with the respective keys (intrinsics arm)"
 hz_harness!(hz_cipher_round_par_ni, 256, 40, |inp| {
     ni_model::set_cpu(true);
     let mut blocks = hazmat::Block8::default();
